@@ -969,6 +969,7 @@ _zuc256_eia3_8_buffer_job(const void *const pKey[NUM_AVX2_BUFS], const uint8_t *
         clear_mem(&singlePktState, sizeof(singlePktState));
         clear_mem(&state, sizeof(state));
         clear_mem(&keys, sizeof(keys));
+        clear_mem(T, sizeof(T));
 #endif
 }
 
